@@ -282,8 +282,8 @@ func (e *Expr) SExp() string {
 		return sx(parts...)
 	case "fld", "pfld":
 		return sx(e.Op, e.Args[0].SExp(), strconv.Itoa(e.N))
-	case "new":
-		return sx("new", e.Ty.SExp())
+	case "new", "nil":
+		return sx(e.Op, e.Ty.SExp())
 	case "slit", "sllit":
 		return sx(append([]string{e.Op, e.Ty.SExp()}, args()...)...)
 	case "alit":
@@ -393,7 +393,7 @@ func (s *Stmt) SExp() string {
 		return sx(s.Op, s.Lvs[0].SExp())
 	case "expr":
 		return sx("expr", s.E.SExp())
-	case "print", "ret":
+	case "print", "ret", "delete":
 		parts := []string{s.Op}
 		for _, e := range s.Es {
 			parts = append(parts, e.SExp())
